@@ -733,7 +733,7 @@ class CSSMatch(_DocumentNav):
 
                 # Can't match a prefix attribute as we haven't specified one to match
                 # Try to match it normally as a whole `p:a` as selector may be trying `p\:a`.
-                if ns is None:
+                if ns is None and (prefix != '*' or namespace is None):
                     if (self.is_xml and attr == k) or (not self.is_xml and util.lower(attr) == util.lower(k)):
                         value = v
                         break
